@@ -39,13 +39,23 @@ def to_ds(spec):
     return svc.simple_ds(**spec)
 
 
-def scp_case(value, lazy=False, fail_after=None):
+def scp_case(value, lazy=False, fail_after=None, reuse=False):
+    """reuse: the handler does not build new data sets but fills in the query object it was handed (as the standard
+    describes matching: the keys of the request, filled in) and yields that same object for every match."""
     service_name, sop, ts_i, max_pdu, query, matches, msg_id, pc_id = value
     if fail_after is not None:
         matches = matches[:fail_after]
+    if reuse:
+        merged, acc = [], dict(query)
+        for m, code in matches:
+            acc = dict(acc, **m)
+            merged.append((dict(acc), code))
+        fills, matches = matches, merged
     from pynetdicom2 import sopclass, statuses, dimsemessages
     case = {'side': 'scp', 'service': service_name, 'sop': sop, 'ts': ts_i, 'max_pdu': max_pdu, 'query': query,
-            'matches': matches, 'msg_id': msg_id, 'pc_id': pc_id, 'lazy': lazy, 'fail_after': fail_after}
+            'matches': matches, 'msg_id': msg_id, 'pc_id': pc_id, 'lazy': lazy, 'fail_after': fail_after, 'reuse': reuse}
+    if reuse:
+        case['fills'] = fills
     ts = TSS[ts_i]
     seen = []
 
@@ -53,6 +63,12 @@ def scp_case(value, lazy=False, fail_after=None):
         seen.append((tuple(ctx), ds))
 
         def gen():
+            if reuse:
+                for m, code in fills:
+                    for kw, v in m.items():
+                        setattr(ds, kw, v)
+                    yield ds, statuses.Status(code, dimsemessages.CFindRSPMessage)
+                return
             for m, code in matches:
                 yield to_ds(m), statuses.Status(code, dimsemessages.CFindRSPMessage)
             if fail_after is not None:
@@ -69,7 +85,7 @@ def scp_case(value, lazy=False, fail_after=None):
         ae.server_close()
     if exc is not None:
         raise Violation('%s:scp:exception:%s' % (PROP, lib_frame(exc)), '%s raised %r' % (service_name, exc), case)
-    if len(seen) != 1 or not svc.ds_equal(seen[0][1], to_ds(query)):
+    if len(seen) != 1 or not svc.ds_equal(seen[0][1], to_ds(matches[-1][0] if reuse and matches else query)):
         raise Violation('%s:scp:query' % PROP, 'handler received %d calls / a query differing from the one sent' % len(seen), case)
     if (seen[0][0][0], str(seen[0][0][1]), str(seen[0][0][2])) != (pc_id, sop, ts):
         raise Violation('%s:scp:context' % PROP, 'handler context %r' % (seen[0][0],), case)
@@ -117,7 +133,8 @@ def scu_case(value):
                 return [fd.incoming_pdu({'t': 6, 'r1': 0, 'r2': 0})]
             return []
         if rec['fields'].get(0x0100) == 0x0020:
-            state['rq'] = rec
+            state.setdefault('rqs', []).append(rec)
+            state['rq'] = state['rqs'][0]
             pc = rec['pc_ids'][0]
             mid = rec['fields'].get(0x0110)
             out = []
@@ -143,6 +160,15 @@ def scu_case(value):
                 with ae.request_association(remote) as assoc:
                     for ds, status in assoc.get_scu(sop)(to_ds(query), msg_id):
                         got.append((ds, int(status), status))
+                    if matches and msg_id % 2 == 0 and got and got[0][0] is not None:
+                        # drill down: a match that was received is edited in place and sent as the next query
+                        nxt = got[0][0]
+                        nxt.QueryRetrieveLevel = 'IMAGE'
+                        if 'PatientID' in nxt:
+                            nxt.PatientID = 'EDITED'
+                        state['requery'] = svc.enc_ds(nxt, svc.EXPLICIT)
+                        for _ in assoc.get_scu(sop)(nxt, (msg_id + 1) & 0xFFFF):
+                            pass
     except Violation:
         raise
     except Exception as exc:
@@ -154,6 +180,18 @@ def scu_case(value):
     rq_ts = str(dul.accepted_contexts[rq['pc_ids'][0]].supported_ts)
     if not svc.wire_ds_equal(rq['data'] or b'', rq_ts, to_ds(query)) or rq['fields'].get(0x0002) != sop:
         raise Violation('%s:scu:query' % PROP, 'identifier / SOP class of the C-FIND-RQ differ from what the caller gave', case)
+    rounds = 1
+    if 'requery' in state:
+        rounds = 2
+        if len(state['rqs']) != 2:
+            raise Violation('%s:scu:requery' % PROP, '%d C-FIND-RQ sent for two queries' % len(state['rqs']), case)
+        try:
+            sent2 = svc.enc_ds(svc.dec_ds(state['rqs'][1]['data'] or b'', rq_ts), svc.EXPLICIT)
+        except Exception:
+            sent2 = None
+        if sent2 != state['requery']:
+            raise Violation('%s:scu:requery' % PROP, 'second query (a received match, edited by the caller): identifier on the '
+                            'wire differs from the data set the caller passed', case)
     want = [(m, code) for m, code in matches] + [(None, final)]
     if len(got) != len(want):
         raise Violation('%s:scu:count' % PROP, 'peer sent %d pending + 1 final response, caller received %d items (statuses %r)'
@@ -164,12 +202,14 @@ def scu_case(value):
         if m is None:
             if ds is not None:
                 raise Violation('%s:scu:final-dataset' % PROP, 'final item carries a data set', case)
+        elif 'requery' in state and i == 0:
+            pass                    # (edited by the caller afterwards)
         elif ds is None or not svc.ds_equal(ds, to_ds(m)):
             raise Violation('%s:scu:identifier' % PROP, 'item %d: data set differs from the one the peer sent' % (i + 1), case)
         if i < len(matches) and not sobj.is_pending:
             raise Violation('%s:scu:pending-class' % PROP, 'item %d: status %04XH not classified pending' % (i + 1, st_), case)
     # receive() calls: A-ASSOCIATE-AC, one per response, A-RELEASE-RP - and not one more
-    if dul.receive_calls != len(matches) + 3 or dul.timeouts:
+    if dul.receive_calls != rounds * (len(matches) + 1) + 2 or dul.timeouts:
         raise Violation('%s:scu:read-past-final' % PROP, 'the user side called receive() %d times (%d timed out) for %d '
                         'responses' % (dul.receive_calls, dul.timeouts, len(matches) + 1), case)
 
@@ -201,6 +241,8 @@ def shard(ctx, job):
     def scp(value):
         multi = scp_case(value)
         scp_case(value, lazy=True)        # same case with a slow provider thread (messages encoded late)
+        if value[5] and len(value[5]) % 3 != 1:
+            scp_case(value, lazy=len(value[5]) % 2 == 1, reuse=True)      # handler fills in and yields the query object
         if value[5]:
             scp_case(value, lazy=len(value[5]) % 2 == 0, fail_after=len(value[5]) // 2)   # handler fails mid-stream
         ctx.case(('scp', value), nontrivial(value[5]) or multi > 0,
@@ -222,7 +264,7 @@ def run(ctx):
                 '(odd-length values, long descriptions), 3 transfer syntaxes, maximum PDU lengths down to 32 bytes; '
                 'provider side through qr_find_scp / modality_work_list_scp (wire read by the reference codecs), user '
                 'side through qr_find_scu / modality_work_list_scu / the c_find() wrapper against a scripted peer with '
-                'final status success/failure/cancel, counting every receive() call; provider handler failing after k matches; '
+                'final status success/failure/cancel, counting every receive() call; provider handler failing after k matches; provider handler filling in and yielding the query object itself; the caller editing a received match and sending it as the next query; '
                 'non-trivial = >=2 matches, mixed pending codes or a multi-fragment response')
     ctx.assumptions = ['matches carry only pending statuses (a non-pending status supplied by the handler is outside the statement)',
                        'loopback composition of both sides is exercised by C20/C15 style checks, not here']
@@ -234,6 +276,9 @@ def replay(case):
     warnings.simplefilter('ignore')
     m = [(a, b) for a, b in case['matches']]
     if case['side'] == 'scp':
-        scp_case((case['service'], case['sop'], case['ts'], case['max_pdu'], case['query'], m, case['msg_id'], case['pc_id']), case.get('lazy', False), case.get('fail_after'))
+        if case.get('reuse'):
+            m = [(a, b) for a, b in case['fills']]
+        scp_case((case['service'], case['sop'], case['ts'], case['max_pdu'], case['query'], m, case['msg_id'], case['pc_id']),
+                 case.get('lazy', False), case.get('fail_after'), case.get('reuse', False))
     else:
         scu_case((case['service'], case['sop'], case['ts'], case['query'], m, case['final'], case['msg_id'], case['via']))
